@@ -109,6 +109,24 @@ static void scen(int variant)
     calls = 4;
     break;
   }
+  case 8: // F9: grow to three workers, then idle periods with one call each: the pool retires workers one by one but must keep serving
+  {
+    installPool(0, 3, 2);
+    {
+      Future<int> f0, f1, f2;
+      f0.start(work0, 1); f1.start(work1, 2); f2.start(work2, 3);
+      int r0 = f0, r1 = f1, r2 = f2;
+      checkCall(0, 1, r0, "conversion"); checkCall(1, 2, r1, "conversion"); checkCall(2, 3, r2, "conversion");
+    }
+    for(int id = 3; id < 8; ++id)
+    {
+      vf_set_clock_ns(vf_now_ns() + 5000000000LL);
+      Future<void> f; f.start(voidWork, id); f.join();
+      if(!bodyDone[id]) vf_failf("C10:join-before-completion", "join returned before call %d had finished", id);
+    }
+    calls = 8;
+    break;
+  }
   default: // F7: void future with two arguments + member function style not needed; start-join twice from two threads on a preinstalled small pool
   {
     installPool(1, 3, 1);
@@ -125,5 +143,5 @@ static void scen(int variant)
 
 extern "C" int vf_scenario_count(void) { return 1; }
 extern "C" const char* vf_scenario_name(int) { return "future"; }
-extern "C" int vf_scenario_variants(int) { return 8; }
+extern "C" int vf_scenario_variants(int) { return 9; }
 extern "C" void vf_scenario_run(int, int variant) { scen(variant); }
